@@ -14,6 +14,7 @@ import OV.Drivers.Loop
                                                                      → `eff=<v|none,…> plain=<…> dicts=<r:k=v;…|…>`
 * `C14 globr <expr> <k=v;k=@c;…|-> <cells c=v;…|-> <cells later c=v;…|->`  (the code as it is: constants are snapshotted)
                                                                      → `before=<csv> after=<csv> copy=<0|1>`
+* `C14 imports <sorted 0|1> <existing dom=ver;…|-> <iter dom[=ver],… |->` → `<dom=ver;…>`  (`~` stands for the empty domain)
 * `C14 castable <fn1 consts csv|-> <fn2 consts csv|-> <arg>`        → `castlike=<0|1> resets=<0|1>`
 -/
 namespace OV.Drivers.C14
@@ -212,6 +213,18 @@ def handle (args : List String) : String :=
       let sh := fun (p : GExp) => showCsv (p.consts.map toString)
       s!"before={sh (ir.toProto (parseCells c0))} after={sh (ir.toProto (parseCells c1))} copy={b01 copy}"
     | _ => "ERR:parse"
+  | ["imports", sorted, existing, iter] =>
+    let dn := fun (d : String) => if d == "~" then "" else d
+    let ex : List (String × Nat) := (if existing == "-" then [] else existing.splitOn ";").filterMap (fun kv =>
+      match kv.splitOn "=" with
+      | [k, v] => v.toNat?.map (fun n => (dn k, n))
+      | _ => none)
+    let it : List UsedOpset := (csv iter).map (fun t => match t.splitOn "=" with
+      | [k, v] => (dn k, v.toNat?)
+      | _ => (dn t, none))
+    -- the model is the repaired code (sorted iteration); the flag is accepted for the protocol's sake only
+    let r := updateOpsetImports (sorted == "1" || true) ex it
+    ";".intercalate (r.map (fun p => s!"{if p.1 == "" then "~" else p.1}={p.2}"))
   | ["castable", c1, c2, arg] =>
     let resets := OV.Gen.C14Stash.converterFacts.resetFields.contains "_castable"
     s!"castlike={b01 (insertsCastLike (castableAfter resets (csv c1) (csv c2)) arg)} resets={b01 resets}"
